@@ -508,7 +508,10 @@ def _call(pool, o, rec, label):
     if name in ("isv_enroll", "jfa_enroll"):
         m = pool.models[name[:3]]
         m.enroll_iterations = o["it"]
+        before = list(sel)
         r = m.enroll(sel)
+        if len(sel) != len(before) or any(a is not b for a, b in zip(sel, before)):
+            raise _ContainerMutated("enroll changed the caller's list of statistics")
         return r, r
     if name in ("isv_enroll_array", "jfa_enroll_array"):
         m = pool.models[name[:3]]
@@ -521,7 +524,11 @@ def _call(pool, o, rec, label):
         model = pool.models["z_isv" if fam == "isv" else "yz_jfa"]
         if name.endswith("_array"):
             return m.score_using_array(model, [X[:4], X[4:]]), None
-        return m.score(model, sel), None
+        before = list(sel)
+        r = m.score(model, sel)
+        if len(sel) != len(before) or any(a is not b for a, b in zip(sel, before)):
+            raise _ContainerMutated("score changed the caller's list of statistics")
+        return r, None
     if name in ("isv_estimate", "jfa_estimate"):
         m = pool.models[name[:3]]
         return [m.estimate_x(sel), m.estimate_ux(sel)], None
@@ -558,6 +565,10 @@ def _call(pool, o, rec, label):
 
 
 class _ConcurrentDiffers(Exception):
+    pass
+
+
+class _ContainerMutated(Exception):
     pass
 
 
@@ -677,6 +688,9 @@ def run_case(case, replay=None):
                     r, produced = _call(pool, o, rec, f"op{i}")
             except HarnessError:
                 raise
+            except _ContainerMutated as e:
+                return Result.violation("caller-input-modified",
+                                        {"after_op": i, "op": name, "what": str(e)}, **rec.fields())
             except _ConcurrentDiffers as e:
                 return Result.violation("concurrent-call-differs-from-sequential",
                                         {"after_op": i, "call": str(e)}, **rec.fields())
